@@ -49,6 +49,7 @@ Prog_2App == [a \in A2 |-> IF a = "c1" THEN <<App(1)>> ELSE <<App(2)>>]
 Prog_AppDel == [a \in A2 |-> IF a = "c1" THEN <<App(1)>> ELSE <<Del({961})>>]
 Prog_ExpDs == [a \in A2 |-> IF a = "c1" THEN <<Exp(2)>> ELSE <<DelSnapInit(2)>>]
 Prog_AppExp == [a \in A2 |-> IF a = "c1" THEN <<App(1)>> ELSE <<Exp(2)>>]
+Prog_3AppDelExp == [a \in A3 |-> IF a = "c1" THEN <<App(1)>> ELSE IF a = "c2" THEN <<Del({961})>> ELSE <<Exp(2)>>]
 Prog_3App == [a \in A3 |-> IF a = "c1" THEN <<App(1)>> ELSE IF a = "c2" THEN <<App(2)>> ELSE <<App(3)>>]
 Prog_3Mix == [a \in A3 |-> IF a = "c1" THEN <<App(1)>> ELSE IF a = "c2" THEN <<Exp(2)>> ELSE <<DelSnapInit(2)>>]
 Prog_2x2 == [a \in A2 |-> IF a = "c1" THEN <<App(1), Del({961})>> ELSE <<App(2), Exp(2)>>]
